@@ -529,7 +529,10 @@ def _requests(tier, seed):
     out.append(("duplicate-headers", dict(headers=[(b"x-a", b"1"), (b"X-A", b"2"), (b"x-a", b"3")])))
     for name, body in [("at", b"@/etc/passwd"), ("at-mid", b"a@b"), ("ctl-newline", b"a\nb"), ("ctl-trailing-newline", b"line\n"), ("ctl-tab", b"a\tb"), ("ctl-percent", b"100%s\n"),
                        ("ctl-percent-d", b"%d\x01"), ("ctl-backslash", b"a\\nb\x01"), ("ctl-backslash-x", b"\\x41\x02"), ("ctl-nul", b"a\x00b"), ("ctl-esc", b"\x1b[2J"), ("ctl-crlf", b"a\r\nb\r\n"),
-                       ("ctl-quote", b"it's\n"), ("ctl-dollar", b"$(echo x > CANARY)\n"), ("unicode", "h\u00e9llo \u2713".encode()), ("binary", b"\xff\xfe\x00"), ("form", b"a=1&b=2"), ("json", b'{"a": [1, 2]}')]:
+                       ("ctl-quote", b"it's\n"), ("ctl-dollar", b"$(echo x > CANARY)\n"), ("unicode", "h\u00e9llo \u2713".encode()), ("binary", b"\xff\xfe\x00"), ("form", b"a=1&b=2"), ("json", b'{"a": [1, 2]}'),
+                       # text WITHOUT control characters that merely looks like an escape: must be passed on literally
+                       ("literal-backslash-x", b"path=C:\\x41pp"), ("literal-regex", b"^\\x20+$"), ("literal-backslash-n", b"a\\nb\\tc"), ("literal-percent", b"100%s %d %%"),
+                       ("literal-octal", b"\\101\\0")]:
         out.append(("body_" + name, dict(content=body)))
         out.append(("body_" + name + "/GET", dict(content=body, method=b"GET")))
     for name, path in [("glob-brackets", b"/a[1-2]"), ("glob-braces", b"/a{x,y}"), ("dot-segments", b"/a/../b"), ("query", b"/p?a=1&b=2"), ("percent", b"/p%20q"), ("fragment", b"/p#x")]:
